@@ -152,7 +152,16 @@ fn fam_lzma(ctx: &CaseCtx, cov: &mut Cov) -> CaseOut {
     let mut pg = ProgGen::new();
     let n_syms = if rng.chance(1, 10) { 0 } else { rng.range(1, 300) as usize };
     let pp = ProgParams::standard(n_syms, 4096);
-    let prog = pg.generate(&mut rng, &pp, &mut it);
+    let mut prog = pg.generate(&mut rng, &pp, &mut it);
+    // one payload in forty ends in a long run of the cheapest symbol (a full-length repeat of the
+    // last distance): kilobytes of output are still owed when the last input byte has been read,
+    // and whether bytes FOLLOW the payload must make no difference to that
+    if !prog.is_empty() && rng.chance(1, 40) {
+        for _ in 0..rng.range(20, 250) {
+            prog.push(Sym::Rep { idx: 0, len: 273 });
+        }
+        cov.name("payloads_ending_in_a_long_cheap_run", 1);
+    }
     let enc = match encode_valid(&prog, props, &mut out) {
         Some(e) => e,
         None => return out,
